@@ -164,6 +164,11 @@ fn run_case(cs: &Value, vals: &[f32], m: &TMap) -> Result<(Got, Got), String> {
 }
 
 static TIMES_ONLY: std::sync::atomic::AtomicBool = std::sync::atomic::AtomicBool::new(false);
+/// the case under replay SELECTS one of its inputs (newest-of): there C03 also demands that the result IS one of the candidates
+static SELECTING: std::sync::atomic::AtomicBool = std::sync::atomic::AtomicBool::new(false);
+fn tolerant() -> bool {
+    TIMES_ONLY.load(std::sync::atomic::Ordering::Relaxed) && !SELECTING.load(std::sync::atomic::Ordering::Relaxed)
+}
 /// how the power function of the build under test may differ from the host's f32::powf:
 /// 0 = bit-exact (std build), n > 0 = within n ulps (libm), -1 = not compared (micromath approximation)
 static POW_ULPS: std::sync::atomic::AtomicI64 = std::sync::atomic::AtomicI64::new(0);
@@ -180,7 +185,7 @@ fn got_json(g: &Got) -> Value {
 }
 fn matches(exp: &Value, g: &Got, vals: &[f32], m: &TMap) -> bool {
     match (s(exp, "c"), g) {
-        ("err", Got::Num(Err(e))) | ("err", Got::Bool(Err(e))) => TIMES_ONLY.load(std::sync::atomic::Ordering::Relaxed) || err_code(e) == i(exp, "e"),
+        ("err", Got::Num(Err(e))) | ("err", Got::Bool(Err(e))) => tolerant() || err_code(e) == i(exp, "e"),
         ("none", Got::Num(Ok(None))) | ("none", Got::Bool(Ok(None))) => true,
         ("some", Got::Num(Ok(Some(d)))) => {
             let pu = POW_ULPS.load(std::sync::atomic::Ordering::Relaxed);
@@ -195,7 +200,7 @@ fn matches(exp: &Value, g: &Got, vals: &[f32], m: &TMap) -> bool {
         ("some", Got::Bool(Ok(Some(d)))) => d.time == m.t(i(exp, "t")) && (TIMES_ONLY.load(std::sync::atomic::Ordering::Relaxed) || Some(d.value) == exp["v"].as_bool()),
         // timestamps-only mode (C03): whether a result is present, absent or an error is C02's business; only the timestamps of results
         // that are present on both sides are compared
-        _ => TIMES_ONLY.load(std::sync::atomic::Ordering::Relaxed),
+        _ => tolerant(),
     }
 }
 fn got_eq(a: &Got, b: &Got) -> bool {
@@ -240,6 +245,7 @@ fn main() {
         });
         let cs = &rec["case"];
         let exp = &rec["out"];
+        SELECTING.store(s(cs, "comb") == "Latest", std::sync::atomic::Ordering::Relaxed);
         rep.count("behaviours", 1);
         let mixed = cs["ins"].as_array().map(|a| a.iter().any(|o| o["c"] == "some") && a.iter().any(|o| o["c"] != "some")).unwrap_or(false)
             || cs.get("bins").is_some() || cs.get("cond").is_some() || cs.get("clock").is_some();
